@@ -48,10 +48,12 @@ func vhUCFind(data *model.NodeManagementUseCaseDataType, ent *EntityLocal, a mod
 // C20 (inductive step): one use-case operation on an arbitrary valid registry.
 func VH_c20_usecases() {
 	ops := []string{"add", "remove", "set-availability", "remove-all", "remove-entity"}
-	cs := verifrt.ShardChoice("case", len(ops)*2*2)
+	cs := verifrt.ShardChoice("case", len(ops)*2*2*2)
+	nested := cs%2 == 1 // the second entity is [2], or the sub-entity [1,1] of the first
+	cs /= 2
 	op, ei, ai := ops[cs/4], (cs/2)%2, cs%2
-	verifrt.Scenario(op)
-	w := vhNewWorld(vhWorldOpts{secondEntity: true, onlyA: true})
+	verifrt.Scenario(op + []string{"", "/nested-entities"}[cs*0+map[bool]int{false: 0, true: 1}[nested]])
+	w := vhNewWorld(vhWorldOpts{secondEntity: true, secondNested: nested, onlyA: true})
 	ents := []*EntityLocal{w.E1, w.E2}
 	nm := w.L.NodeManagement()
 
